@@ -10,6 +10,7 @@ audit_all_database_entities + trashcan, GroupCollection.audit.
 import EzdxfVerif.Lemmas.Audit
 import EzdxfVerif.Lemmas.DocOwner
 import EzdxfVerif.Lemmas.DocLink
+import EzdxfVerif.Lemmas.DocFinal
 
 namespace EzdxfVerif.Props.C06
 open EzdxfVerif.Doc
@@ -54,6 +55,28 @@ theorem audit_groups_layouts_clean (s : State) :
     needRestore (audit s).1 = false :=
   ⟨(Doc.audit_clean s).2.2.1, (Doc.audit_clean s).2.2.2.1, (Doc.audit_clean s).2.2.2.2⟩
 
+/-! ### Final round: the no-false-positive clause as theorems over histories -/
+
+/-- NO FALSE POSITIVES for every history: after ANY history of the 29 API operations from a state with the invariants, if
+    the document reached meets the precondition of the clause (`ApiValid`, decidable: every live entity linked, block
+    references defined, groups non-empty with live members on one layout, paperspace block records consistent),
+    `doc.audit()` applies no fix and changes nothing.  Ownership consistency and "linked => listed" are not assumed but
+    proved for the reached state -/
+theorem audit_sound_history (s : State) (ops : List Op) (hi : DocInv s) (ho : OwnerInv s) (hl : LinkInv s)
+    (hok : HistOk s ops) (hv : ApiValid (run s ops)) : audit (run s ops) = (run s ops, 0) :=
+  Doc.audit_sound_history s ops hi ho hl hok hv
+
+/-- "every entity is linked to a layout" is kept by every operation except `layout.unlink_entity` -/
+theorem step_no_unlinked (s : State) (op : Op) (hop : NotUnlink op) (hn : NoUnl s none) : NoUnl (step s op).1 none :=
+  Doc.step_NoUnl s op hop hn
+
+/-- the linkage part of the precondition discharged: for histories that never call `unlink_entity` the audit of the
+    reached document is silent, provided its block references are defined, its groups valid and its paperspace block
+    records consistent (`RefsValid`) -/
+theorem audit_sound_no_unlink (s : State) (ops : List Op) (hi : DocInv s) (ho : OwnerInv s) (hl : LinkInv s)
+    (hn : NoUnl s none) (hok : HistOk s ops) (hops : NoUnlinkHist ops) (hv : RefsValid (run s ops)) :
+    audit (run s ops) = (run s ops, 0) := Doc.audit_sound_no_unlink s ops hi ho hl hn hok hops hv
+
 /-! ### non-vacuity: the damaged document of the probe in DESIGN (dangling owner, wrong owner,
     undefined block, unlinked entity, entity listed twice) -/
 
@@ -92,6 +115,18 @@ def damaged3 : State := run fresh [.add 27 47 48, .renBlock paperSpaceName (ofSt
 #guard (audit damaged3).2 == 1
 #guard activeBr (audit damaged3).1 == some 27
 #guard (audit (audit damaged3).1).2 == 0
+
+-- a history with a block, an INSERT with ATTRIB, a copy, a move, an explode, a group, an audit and a reload meets the
+-- hypotheses of `audit_sound_no_unlink`
+def apiHist : List Op := [.newBlock (ofString "B") 47 50, .add 47 50 51, .addL 23 (some (ofString "b")) 51 [52, 53] 54,
+  .add 23 54 55, .copy 51 27 55 [56, 57] 58, .move 23 54 27, .explode 51 [(58, [])] 59, .newGroup (ofString "G") 59 60,
+  .setGroup (ofString "g") [54, 55], .audit 60, .reload 61]
+example : NoUnlinkHist apiHist := by intro op hop; simp [apiHist] at hop; rcases hop with h|h|h|h|h|h|h|h|h|h|h <;> subst h <;> trivial
+example : NoUnl fresh none := by intro h _ ha; simp [isAlive, findEnt, fresh] at ha
+#guard decide (RefsValid (run fresh apiHist))
+#guard decide (ApiValid (run fresh apiHist))
+#guard (audit (run fresh apiHist)).2 == 0
+#guard !decide (ApiValid (run fresh [.add 23 47 48, .unlink 23 47]))
 
 #guard decide (AuditClean (run fresh [.add 23 47 48, .add 27 48 49, .move 27 48 23]))
 #guard !decide (AuditClean damaged)
